@@ -1,8 +1,9 @@
 from common import *
 from rpcommon import *
 ID = 'C09'
-TRANSLATORS = []
-COQ_TARGETS = ['Properties_C09.vo']
+TRANSLATORS = [('consts2coq.py', ['coq/Gen/Consts.v'])]
+GEN_FILES = ['coq/Gen/Consts.v']
+COQ_TARGETS = ['Properties_C09.vo', 'Proof/ConstsRegp.vo']
 HARNESS_MODS = ['rp']
 RULE = 'cases: rp.serve serial mem16 style blocksize l:allocscript h:stream l:verdicts - session histories on exact-size heap blocks handed out by a scripted, ledger-keeping allocator (ASan sees every access outside the block; the backend fills/reads exactly unit*blocksize octets of the buffer it is given); obs per round: return code, error id, frame, backend calls, reply octets, allocations, releases, foreign releases, blocks outstanding at the end.  Streams: every frame length around the receive limit and every read size around the transmit limit (and at 2^16, 2^24, 2^30, 2^31, 2^32-1) for block sizes 65.. , with and without allocation failure, short and empty frames, random and mutated-valid streams, every option-bit combination.  Non-trivial: every case; distinct = distinct lines.'
 TRUSTED_BASE = TB_COMMON + ['Model/Regp.v is hand-written from src/register-protocol.c, src/endpoints/continuable-sink.c and doc/regp.txt; tie = correspondence']
